@@ -1541,7 +1541,7 @@ void ScriptVariable::setArrayAtRef(const ScriptVariable& index, const ScriptVari
     case variableType_e::Vector:
         intValue = index.intValue();
 
-        if (intValue > 2) {
+        if (intValue < 0 || intValue > 2) {
             throw ScriptVariableErrors::TypeIndexOutOfRange("Vector", intValue);
         }
 
